@@ -363,7 +363,7 @@ def dispatch (c : Ctx) (r : Row) (options : BitVec 32) (o0 o1 o2 o3 : Op) : Exce
     if isign3 == RM then emitX86M c (addPrefixBySize opcode o0.rmSize) options (r32 o0.id) (memOf o1) 0 0
     else .error .invalidInstruction
   | 0x2c =>                                                                       -- X86Mov: general-purpose register / memory / immediate forms
-    -- (segment / control / debug registers and the moffs `movabs` forms answer `unmodelled`)
+    -- (the moffs `movabs` forms and segment registers with memory answer `unmodelled`)
     if isign3 == RR then
       if o0.isGp && o1.isGp then
         if o0.rmSize != o1.rmSize then .error .invalidInstruction else
@@ -376,7 +376,20 @@ def dispatch (c : Ctx) (r : Row) (options : BitVec 32) (o0 o1 o2 o3 : Op) : Exce
           let opc := addPrefixBySize 0x89#32 o0.rmSize
           if (options &&& oModRM) == 0#32 then emitX86R opc options (r32 o1.id) (r32 o0.id) 0 0
           else emitX86R (opc + 2#32) options (r32 o0.id) (r32 o1.id) 0 0
-      else .error .unmodelled
+      else
+        let regT (o : Op) : Nat := match o with | .reg t _ => t | _ => 0
+        -- CR8+ in 32-bit mode takes the `LOCK MOV` path (AMD extension): not modelled
+        let lockPath (o : Op) : Bool := !c.mode64 && o.id ≥ 8
+        if o0.isGp then
+          if regT o1 == 25 then emitX86R (addPrefixBySize 0x8C#32 o0.rmSize) options (r32 o1.id - 1#32) (r32 o0.id) 0 0
+          else if regT o1 == 26 then (if lockPath o1 then .error .unmodelled else emitX86R 0x120#32 options (r32 o1.id) (r32 o0.id) 0 0)
+          else if regT o1 == 27 then emitX86R 0x121#32 options (r32 o1.id) (r32 o0.id) 0 0
+          else .error .invalidInstruction
+        else if !o1.isGp then .error .invalidInstruction
+        else if regT o0 == 25 then emitX86R (addPrefixBySize 0x8E#32 o1.rmSize) options (r32 o0.id - 1#32) (r32 o1.id) 0 0
+        else if regT o0 == 26 then (if lockPath o0 then .error .unmodelled else emitX86R 0x122#32 options (r32 o0.id) (r32 o1.id) 0 0)
+        else if regT o0 == 27 then emitX86R 0x123#32 options (r32 o0.id) (r32 o1.id) 0 0
+        else .error .invalidInstruction
     else if isign3 == RM then
       if !o0.isGp then .error .unmodelled else
       let m := memOf o1
@@ -389,7 +402,35 @@ def dispatch (c : Ctx) (r : Row) (options : BitVec 32) (o0 o1 o2 o3 : Op) : Exce
       if o1.id == 0 && m.baseType == 0 && m.indexType == 0 then .error .unmodelled else
       let (opt1, rg) := if o1.rmSize == 1 then fixupGpb options o1 (r32 o1.id) else (options, r32 o1.id)
       emitX86M c (addArithBySize 0#32 o1.rmSize + 0x88#32) opt1 rg m 0 0
+    else if isign3 == 1 + 4 * 8 then                                              -- Reg, Imm
+      if !o0.isGp then .error .unmodelled else
+      let size := o0.rmSize
+      if size == 1 then
+        let (opt1, rb) := fixupGpb options o0 (r32 o0.id)
+        emitX86OpReg 0xB0#32 opt1 rb (o1.immVal &&& 0xFF#64) 1
+      else if size == 8 && (options &&& oLongForm) == 0#32 && isInt32of64 o1.immVal then
+        emitX86R (kW ||| 0xC7#32) options 0#32 (r32 o0.id) o1.immVal 4                 -- sign-extended `C7 /0 id` (kOptimizeForSize is not set)
+      else emitX86OpReg (addPrefixBySize 0xB8#32 size) options (r32 o0.id) o1.immVal size
+    else if isign3 == 2 + 4 * 8 then                                              -- Mem, Imm
+      let msz := o0.rmSize
+      if msz == 0 then .error .ambiguousOperandSize else
+      emitX86M c (addPrefixBySize (if msz != 1 then 0xC7#32 else 0xC6#32) msz) options 0#32 (memOf o0) o1.immVal (min msz 4)
     else .error .unmodelled
+  | 0x0e =>                                                                       -- X86M_Only
+    if isign3 == 2 then emitX86M c opcode options opReg0 (memOf o0) 0 0 else .error .invalidInstruction
+  | 0x38 =>                                                                       -- X86Set
+    if isign3 == 1 then
+      let (opt1, rb) := fixupGpb options o0 (r32 o0.id)
+      emitX86R opcode opt1 opReg0 rb 0 0
+    else if isign3 == 2 then emitX86M c opcode options opReg0 (memOf o0) 0 0
+    else .error .invalidInstruction
+  | 0x56 =>                                                                       -- ExtMov
+    if isign3 == RR then
+      if (options &&& oModMR) == 0#32 || r.altOp == 0#32 then emitX86R opcode options (r32 o0.id) (r32 o1.id) 0 0
+      else emitX86R r.altOp options (r32 o1.id) (r32 o0.id) 0 0
+    else if isign3 == RM then emitX86M c opcode options (r32 o0.id) (memOf o1) 0 0
+    else if isign3 == MR then emitX86M c r.altOp options (r32 o1.id) (memOf o0) 0 0
+    else .error .invalidInstruction
   | 0x26 => emitJmpCall c opcode options 0#32 r.altOp o0 false                   -- X86Jcc
   | 0x28 =>                                                                       -- X86Jmp
     if isign3 == 1 then emitX86R (opcode ||| (if o0.rmSize == 2 then kPP_66 else 0#32)) options opReg0 (r32 o0.id) 0 0
